@@ -12,6 +12,7 @@ import numpy as np
 
 from vp import probe, specmodel as sm
 from vp import defaults
+from vp import reuse
 
 RULE = ('seeded generator: pairs of spectra with identical / nested / partially overlapping / disjoint ranges on uniform and '
         'non-uniform grids (2..40 samples), the five operators, sampling min/left/right/float, methods linear/quadratic/cubic '
@@ -266,6 +267,7 @@ def in_unit(R, wave_nm, value, unit, valueunit=None):
 
 def workload(ctx, lentil):
     defaults.run(ctx, lentil, 'C13', 'grid')
+    reuse.run(ctx, lentil, 'C13', 'grid')
     rng = ctx.rng
     R = lentil.radiometry
     n = ctx.count(160, 1200)
